@@ -237,6 +237,9 @@ func ParseJournal(file, root string) ([]Mutation, error) {
 	return out, sc.Err()
 }
 
+// ConverterBin is the harness converter that files below conv/ are linked to when a tree is materialised.
+var ConverterBin string
+
 // FS is an in-memory directory tree.
 type FS struct {
 	Files map[string][]byte
@@ -309,11 +312,14 @@ func (fs *FS) WriteTo(dir string) error {
 				return err
 			}
 		}
-		mode := os.FileMode(0o644)
-		if strings.HasPrefix(p, "conv/") {
-			mode = 0o755
+		if strings.HasPrefix(p, "conv/") && ConverterBin != "" {
+			// converters are linked, not copied (see svc.NewWorldIn)
+			if err := os.Symlink(ConverterBin, dir+"/"+p); err != nil {
+				return err
+			}
+			continue
 		}
-		if err := os.WriteFile(dir+"/"+p, b, mode); err != nil {
+		if err := os.WriteFile(dir+"/"+p, b, 0o644); err != nil {
 			return err
 		}
 	}
